@@ -299,7 +299,19 @@ func runC13(rc *RunCtx) {
 			govDone = true
 			// one governance change that keeps the ratio sum <= 100
 			var err error
-			switch rc.Intn(5) {
+			switch rc.Intn(7) {
+			case 6:
+				// TokensPerBlock lowered below the running emission (and, in other cases, raised again by case 3)
+				nt := prevE.QuoRaw(2).Int64()
+				if nt < 1 {
+					nt = 1
+				}
+				rc.Logf("gov: TokensPerBlock -> %d (half the running emission) at h=%d", nt, c.Height)
+				err = c.ParamChange("jklmint", "TokensPerBlock", fmt.Sprintf(`"%d"`, nt))
+			case 5:
+				nd := rc.PickS([]string{"uother", "ujkl", "unew"})
+				rc.Logf("gov: MintDenom -> %s at h=%d", nd, c.Height)
+				err = c.ParamChange("jklmint", "MintDenom", fmt.Sprintf(`"%s"`, nd))
 			case 4:
 				na := c.Accs[rc.Intn(len(c.Accs))].Bech
 				rc.Logf("gov: StorageStipend -> %s at h=%d", na, c.Height)
